@@ -444,10 +444,12 @@ fn gen_ops(rng: &mut Rng, cfg: &Cfg, n: usize, next_id: &mut u32) -> Vec<Op> {
     let keys: Vec<String> = (0..nkeys).map(|i| format!("k{i}")).collect();
     let mut ops = Vec::new();
     let mut clock: u64 = 0; // total virtual time, capped so that ages stay below the uptime
+    let mut recent: Vec<String> = Vec::new(); // recently stored keys: lookups are biased towards them (hits)
     for _ in 0..n {
         let k = rng.pick(&keys).clone();
         let c = rng.below(100);
         if c < 40 {
+            let k = if !recent.is_empty() && rng.chance(3, 4) { rng.pick(&recent).clone() } else { k };
             ops.push(Op::Get(k));
         } else if c < 82 {
             *next_id += 1;
@@ -467,6 +469,11 @@ fn gen_ops(rng: &mut Rng, cfg: &Cfg, n: usize, next_id: &mut u32) -> Vec<Op> {
                 }
                 None => 4 + rng.below(20) as usize,
             };
+            recent.retain(|x| *x != k);
+            recent.push(k.clone());
+            if recent.len() > 3 {
+                recent.remove(0);
+            }
             if mem_path {
                 ops.push(Op::InsM(k, *next_id, len));
             } else {
